@@ -98,6 +98,14 @@ def run(ctx, w):
         return
     trim_rules(ctx, w, S, R, T)
     view_rules(ctx, w, S, R, T)
+    # what scrolls off a range starting at row 0 must actually be appended above the view, whatever the limit
+    from rules import c06, c12, prims
+    up, down = c06.scroll_prims(w, S)
+    c12.c06_w9(ctx, w, S, up)
+    prims.scroll_primitives(ctx, w, S, "D7")
+    ctx.floor("D7", 500, "scroll primitive evaluations")
+    from rules import c13
+    c13.config_plumbing(ctx, w, S, R, "D8")
     stream_rules(ctx, w, S, R, T)
 
 
@@ -135,6 +143,8 @@ def trim_rules(ctx, w, S, R, T):
                       "%s calls %s: lines trimmed there are not handed out through Changes.scrollback (they are silently lost)" % (c2.body, callee), loc=w.site_loc(c2),
                       sample={"caller": c2.body, "callee": callee})
     ctx.floor("D5", 3, "trim callers")
+    from rules import c06
+    c06.role_limits(ctx, w, S, R, "D6")
 
 
 def lines_accesses(w, S, fn):
